@@ -274,6 +274,12 @@ def round6_cases(thorough):
     return cs
 
 
+def round8_cases(thorough):
+    """the mapping handler stopped while 0 / 1 / several tunnels created by its own handleConnection are alive; a tunnel
+    registered under the id of a tunnel that is inside its Close (gated) or has finished it"""
+    return [{"mode": "mapping_live", "k": k} for k in ((0, 1, 3, 6) if thorough else (0, 1, 3))] + [{"mode": "tunnel_reregister", "side": sd} for sd in (0, 1)]
+
+
 def throttle_cases(thorough):
     """a bandwidth-limited bridge (100 B/s .. 1 KB/s) closed while a copy direction holds one chunk far larger than the bucket"""
     base = [(100, 4096, 1), (1024, 32768, 2)] + ([(256, 8192, 3), (1000, 16384, 1)] if thorough else [])
@@ -421,7 +427,7 @@ def run(ctx, only_cases=None):
         pinfo = vlib.coq_properties("C16")
         vlib.coq_make(["Proofs/SideC16.vo"])
         vlib.proof_coverage(ctx, pinfo, "make -C coq Properties/C16.vo Proofs/SideC16.vo && coqc Properties/C16.v (Print Assumptions audit)",
-                            extra_obligations=17)
+                            extra_obligations=19)
     except vlib.Broken as b:
         broken = b
     ibin = None
@@ -447,7 +453,7 @@ def run(ctx, only_cases=None):
         cases += start_close_cases(ctx.rng, thorough)
         cases += stall_cases(thorough)
         cases += queue_cases() + fault_cases(ctx.rng, thorough) + attach_cases(ctx.rng, thorough)
-        cases += resmgr_cases(ctx.rng, thorough) + overlap_cases(thorough) + throttle_cases(thorough) + round6_cases(thorough)
+        cases += resmgr_cases(ctx.rng, thorough) + overlap_cases(thorough) + throttle_cases(thorough) + round6_cases(thorough) + round8_cases(thorough)
         cases += race_cases(ctx.rng, thorough)
     is_instr = lambda c: c["mode"] == "tunnel_sched" or (c["mode"] == "tunnel_start" and c["point"] >= 0)
     plain = [c for c in cases if not is_instr(c)]
@@ -538,7 +544,7 @@ def run(ctx, only_cases=None):
             nontriv.add(json.dumps(c, sort_keys=True))
         elif c["mode"] == "bridge_stall" or (c["mode"] == "stream_queue" and o.get("b_parked_on_lock")):
             nontriv.add(json.dumps(c, sort_keys=True))
-        elif c["mode"] in ("mapping_stats", "bridge_hung_backend") or c["mode"] == "session_overlap" or (c["mode"] == "res_mgr" and len(c["events"]) >= 3) or (c["mode"] == "bridge_throttle" and o.get("parked_in_throttle")):
+        elif (c["mode"] == "mapping_live" and c["k"] > 0) or c["mode"] == "tunnel_reregister" or c["mode"] in ("mapping_stats", "bridge_hung_backend") or c["mode"] == "session_overlap" or (c["mode"] == "res_mgr" and len(c["events"]) >= 3) or (c["mode"] == "bridge_throttle" and o.get("parked_in_throttle")):
             nontriv.add(json.dumps(c, sort_keys=True))
         elif c["mode"] == "fault_close" and c["reads"] != 0:
             nontriv.add(json.dumps(c, sort_keys=True))
